@@ -19,14 +19,18 @@ TRUSTED_BASE = [
     "opaque summaries: import_module / getattr on foreign objects may return anything or raise any BaseException; "
     "ModuleFinder.find_spec returns or raises ModuleNotFoundError; visit/inspect/_load_submodules are opaque effects recorded in the ghost trace",
 ]
-ASSUMPTIONS = ["the body of `with sys_path(...)` may rebind sys.path and raise anything; it does not mutate the old list object in place"]
+ASSUMPTIONS = ["the body of `with sys_path(...)` (incl. the code run by import_module) may rebind sys.path and raise anything; it does not mutate the old list object in place",
+               "dynamic_import is called with the finder's search paths, which are not empty (ModuleFinder falls back to sys.path); with no path at all "
+               "sys_path() installs nothing and restores nothing (pinned)"]
 
 
 def setup_sys(P):
     old = Opaque("old_sys_path", z3.Int("old_sys_path_id"))
     # value comparison of the old list with anything else: undetermined (the requested paths may or may not equal it)
     P.ex.opaque_eq = lambda P_, o, other: z3.Bool(P_._fresh_name("sys_path_value_equals_other"))
-    P.ghost["ext"] = {"sys.path": old}
+    # sys.modules: an arbitrary table (what is already imported is outside the function's control)
+    in_modules = z3.Function("IN_SYS_MODULES", StrS, BoolS)
+    P.ghost["ext"] = {"sys.path": old, "sys.modules": SMap(lambda k: in_modules(zstr(k)), lambda k: Opaque("pyobj"), tag="sys.modules")}
     return old
 
 
@@ -70,6 +74,11 @@ def c_sys_path(P):
 def _import_hooks(P):
     def import_module(P_, a, k):
         P_.trace.append(("import_module",))
+        # the imported code is arbitrary: it may rebind sys.path (and then still succeed, raise or exit)
+        n = sum(1 for t in P_.trace if t[0] == "import_module")
+        if n <= 2 and P_.branch(z3.Bool(f"imported_code_rebinds_sys_path_{n}")):
+            P_.ghost["ext"]["sys.path"] = Opaque("list_left_by_imported_code", z3.Int(f"imported_code_list_id_{n}"))
+            P_.assume(z3.Int(f"imported_code_list_id_{n}") != z3.Int("old_sys_path_id"))
         may_raise(P_, "import_module")
         return Opaque("pyobj")
 
@@ -95,9 +104,15 @@ def c_dynamic_import(P):
                                 hints={"value": lambda P_, n: Opaque("pyobj")})
     import_path = P.fresh_str("import_path")
     ips = opt(P, "import_paths", lambda: path_seq(P))
+    if isinstance(ips, SUnion):
+        ips = P.choose(ips)
+    # the search paths handed over by the loader / inspector are the finder's, which are never empty (ASSUMPTIONS); with no path at all sys_path() has
+    # nothing to install and what the imported code does to sys.path stays (pinned behaviour of sys_path, see sys_path.restore)
+    nonempty = z3.BoolVal(False) if ips is None else (zint(P.seq_len(ips)) > 0)
     kind, res = outcome(P, lambda: call(P, q, import_path, ips))
     now = P.ghost["ext"]["sys.path"]
-    P.prove("sys_path_restored", P.identical(now, old), outcome=kind)
+    rebound = z3.Or(z3.Bool("imported_code_rebinds_sys_path_1"), z3.Bool("imported_code_rebinds_sys_path_2"))
+    P.prove("sys_path_restored", z3.Implies(z3.Or(nonempty, z3.Not(rebound)), zbool(P.identical(now, old))), outcome=kind)
     if kind == "raise":
         cname = P.resolve_cls(res)
         P.prove("raises_only_ImportError", P.is_subclass(cname, "ImportError"), exc=cname)
